@@ -20,3 +20,38 @@ package aio
 
 //@ func (Plugin).Type
 //@ iface
+
+//@ func (Subsystem).Enqueue
+//@ iface
+//@ records subsystem_enqueue
+
+// A submission handed to the aio is passed to its subsystem exactly once; if the subsystem refuses it the
+// callback is invoked exactly once with a queue-full error, otherwise not at all (the subsystem owns it).
+//@ func (*aio).EnqueueSQE
+//@ props C12
+//@ nopanic C13
+//@ funcvalue ^sqe\.Callback$ records aio_callback
+//@ requires a != nil && a.metrics != nil && a.metrics.AioInFlight != nil && a.metrics.AioTotal != nil && a.subsystems != nil
+//@ requires sqe != nil && sqe.Submission != nil && has_key(a.subsystems, sqe.Submission.Kind) && a.subsystems[sqe.Submission.Kind] != nil
+//@ requires sqe.Submission.Kind >= t_aio.Echo && sqe.Submission.Kind <= t_aio.Store
+//@ ensures calls("subsystem_enqueue") == 1
+//@ ensures callres("subsystem_enqueue", 0, 0) ==> calls("aio_callback") == 0
+//@ ensures !callres("subsystem_enqueue", 0, 0) ==> calls("aio_callback") == 1 && callarg("aio_callback", 0, 0) == nil && errcode(callarg("aio_callback", 0, 1)) == t_api.StatusAIOSubmissionQueueFull
+
+//@ func (*aio).Dispatch
+//@ props C12
+//@ nopanic C13
+//@ funcvalue ^callback$ records aio_callback
+//@ requires a != nil && a.metrics != nil && a.metrics.AioInFlight != nil && a.metrics.AioTotal != nil && a.subsystems != nil
+//@ requires submission != nil && submission.Tags != nil && submission.Tags["id"] != "" && has_key(a.subsystems, submission.Kind) && a.subsystems[submission.Kind] != nil
+//@ requires submission.Kind >= t_aio.Echo && submission.Kind <= t_aio.Store
+//@ ensures calls("subsystem_enqueue") == 1 && callarg("subsystem_enqueue", 0, 1).Submission == submission
+//@ ensures callres("subsystem_enqueue", 0, 0) ==> calls("aio_callback") == 0
+//@ ensures !callres("subsystem_enqueue", 0, 0) ==> calls("aio_callback") == 1
+
+//@ func (AIO).DequeueCQE
+//@ iface
+//@ ensures len(result) <= arg0
+
+//@ func (AIO).Flush
+//@ iface
